@@ -243,7 +243,21 @@ func (cr *classResolver) classOf1(v ssa.Value) classSet {
 		if n, ok := constInt(x.Size); ok {
 			capStr = fmt.Sprint(n)
 		}
-		cs.add(fmt.Sprintf("make(%s,%s)@%s", shortType(x.Type()), capStr, fnShort(x.Parent())))
+		// ordinal among the makes of the same channel type in the same function, so that two
+		// channels made side by side (iter, iterPop) are two classes
+		ord := 0
+		for _, b := range x.Parent().Blocks {
+			for _, in := range b.Instrs {
+				if mc, ok := in.(*ssa.MakeChan); ok && types.Identical(mc.Type(), x.Type()) && mc.Pos() < x.Pos() {
+					ord++
+				}
+			}
+		}
+		name := fmt.Sprintf("make(%s,%s)@%s", shortType(x.Type()), capStr, fnShort(x.Parent()))
+		if ord > 0 {
+			name += fmt.Sprintf("#%d", ord+1)
+		}
+		cs.add(name)
 	case *ssa.ChangeType:
 		return cr.classOf(x.X)
 	case *ssa.Convert:
